@@ -1,4 +1,4 @@
-import CppUModel.Proofs.SimpleString
+import CppUModel.Proofs.SimpleStringFmt
 import CppUModel.Model.SimpleStringOps
 /-!
 # Operation scripts keep the allocator pairing invariant (helper lemmas and the step theorem)
@@ -369,17 +369,6 @@ theorem split_op_silent {x y : Obj} {a d : Bytes} (hx : Holds x a) (hy : Holds y
       have ho6 := dtorAllRev_inv heq ((ho4.emit_out _).perm List.perm_middle.symm)
       exact ho6.free_head
 
-/-- the operation is one of the object-level operations covered by the pairing theorem and its
-    literal operands are C strings (a buffer with a terminator) -/
-def Op.wf : Op → Prop
-  | .new _ h => ∃ a, CAt h 0 a
-  | .rep _ h _ => ∃ a, CAt h 0 a
-  | .pluseqc _ h => ∃ a, CAt h 0 a
-  | .replc _ _ c2 => c2 ≠ 0
-  | .repl _ h1 h2 => (∃ a, CAt h1 0 a) ∧ ∃ b, CAt h2 0 b
-  | .fmt _ _ => False
-  | _ => True
-
 /-- `m` returns the store `st` and leaves the allocator alone -/
 def QueryLike (m : M Store) (st : Store) : Prop :=
   ∀ w s w', m w = .ok (s, w') → s = st ∧ ∀ L, Owns w L → Owns w' L
@@ -476,30 +465,310 @@ theorem create_of_creates {st : Store} {w : World} {l : String} {m : M Obj} {a :
     (hs : create st l m w = .ok (st', w')) (hfit : Fits st') : Good st' w' :=
   create_good hg hm (fun _ h => ⟨a, h⟩) hs hfit
 
-/-- what the environment (`vsnprintf`) must have recorded for the operation: for `printable` the
-    `"\\x%02X "` renderings of the bytes that get a hex escape (libc, trusted) -/
-def EnvOk (st : Store) (w : World) : Op → Prop
-  | .printable _ a => ∀ x s, st.get? a = some x → Holds x s → ∃ vs rest, HexEnv s vs ∧ w.vsn = vs ++ rest
-  | _ => True
+theorem pc_ctorRepeat (src : Buf) (sp k : Nat) : PC (ctorRepeat src sp k) := by
+  intro w r w' h
+  cases hl : StrLen src sp with
+  | error e => simp [ctorRepeat, hl] at h
+  | ok n =>
+    obtain ⟨a, ha, _⟩ := StrLen_inv hl
+    obtain ⟨r0, w0, h0, hh, hs, ho⟩ := ctorRepeat_creates ha k w
+    rw [h0] at h
+    injection h with h; injection h with h1 h2; subst h1 h2
+    exact ⟨⟨_, hh⟩, hs, ho⟩
 
-/-- **one operation keeps the invariant**: if an object-level operation succeeds in a good state
-    (and the result stays within `size_t`), the state after it is good again: every object holds
-    a string, recorded sizes are buffer sizes, and the allocator's outstanding buffers are exactly
-    the live objects' buffers — every temporary was released once, with its requested size. -/
-theorem step_good {st st' : Store} {w w' : World} {op : Op} (hg : Good st w) (hwf : op.wf) (henv : EnvOk st w op)
+theorem replaceStr_pc {self : Obj} (hself : HasStr self) (hsz : Sized self) (to : Buf) (tp : Nat) (wb : Buf) (wp : Nat) :
+    ∀ w r w', replaceStr self to tp wb wp w = .ok (r, w') →
+      HasStr r ∧ Sized r ∧ ∀ L, Owns w ((self.id, self.size) :: L) → Owns w' ((r.id, r.size) :: L) := by
+  intro w r w' h
+  obtain ⟨a, ha⟩ := hself
+  cases hl : StrLen to tp with
+  | error e => simp [replaceStr, size_ok ha, hl] at h
+  | ok n =>
+    cases hl2 : StrLen wb wp with
+    | error e => simp [replaceStr, size_ok ha, hl, hl2] at h
+    | ok n2 =>
+      obtain ⟨pat, hpat, _⟩ := StrLen_inv hl
+      obtain ⟨rep, hrep, _⟩ := StrLen_inv hl2
+      obtain ⟨r0, w0, h0, hh, hs, ho⟩ := replaceStr_replaces ha hsz hpat hrep w
+      rw [h0] at h
+      injection h with h; injection h with h1 h2; subst h1 h2
+      exact ⟨⟨_, hh⟩, hs, ho⟩
+
+/-- `replace(char, char)` for ANY replacement byte (a NUL shortens the string): in place -/
+theorem replaceChar_any {self : Obj} {a : Bytes} (h : Holds self a) (to w : UInt8) :
+    ∃ r, replaceChar self to w = .ok r ∧ Holds r (cut (Text.replaceByte a to w)) ∧ r.id = self.id ∧
+      r.size = self.size ∧ r.buf.length = self.buf.length := by
+  obtain ⟨b, h1, h2, post, h3⟩ := replaceChar_ok h to w
+  refine ⟨_, h1, ?_, rfl, rfl, h2⟩
+  show CAt b 0 _
+  rw [h3]; exact cat_cut _ _
+
+theorem pc_runFmt {st : Store} {w0 : World} (hg : Good st w0) : ∀ f : Fmt, PC (runFmt st f)
+  | .plain => pc_stringFromFormat
+  | .vplain => pc_vStringFromFormat
+  | .cstr h => pc_ctorCStr h 0
+  | .orNull h => pc_stringFromOrNull h
+  | .printableOrNull h => pc_printableStringFromOrNull h
+  | .copyOf a => by
+    simp only [runFmt]
+    cases hx : st.get? a with
+    | none => intro w r w' h; simp at h
+    | some o => exact pc_ctorCopy (hg.holds_of_get hx)
+  | .pointer => pc_stringFromPointer
+  | .hexSC neg => pc_hexStringFromSignedChar neg
+  | .brackets => pc_with_temp pc_stringFromFormat (fun o ho => pc_brackets ho)
+  | .bracketsSC neg => pc_with_temp (pc_hexStringFromSignedChar neg) (fun o ho => pc_brackets ho)
+  | .bracketsStr a => by
+    simp only [runFmt]
+    cases hx : st.get? a with
+    | none => intro w r w' h; simp at h
+    | some o => exact pc_with_temp (pc_ctorCopy (hg.holds_of_get hx)) (fun o ho => pc_brackets ho)
+  | .binary n => pc_stringFromBinary n
+  | .binaryOrNull isNull n => pc_stringFromBinaryOrNull isNull n
+  | .binarySize n => pc_stringFromBinaryWithSize false n
+  | .binarySizeOrNull isNull n => pc_stringFromBinaryWithSizeOrNull isNull n
+  | .masked v m k => pc_stringFromMaskedBits v m k
+
+/-- creating object `l` from a computation in partial-correctness form -/
+theorem create_of_pc {st : Store} {w : World} {l : String} {m : M Obj} (hg : Good st w) (hm : PC m)
+    {st' : Store} {w' : World} (hs : create st l m w = .ok (st', w')) (hfit : Fits st') : Good st' w' := by
+  simp only [create] at hs
+  by_cases hh : st.has l = true
+  · simp [hh, bad] at hs
+  · have hh' : st.has l = false := Bool.eq_false_iff.mpr hh
+    simp only [hh', Bool.false_eq_true, if_false] at hs
+    obtain ⟨r, w1, hr, hs2⟩ := bind_ok_inv hs
+    obtain ⟨⟨a, ha⟩, hsz, ho⟩ := hm _ _ _ hr
+    have hc : Creates m w (fun o => Holds o a) := ⟨r, w1, hr, ha, hsz, ho⟩
+    have hs' : create st l m w = .ok (st', w') := by
+      simp only [create, hh', Bool.false_eq_true, if_false]; exact hs
+    exact create_of_creates hg hc hs' hfit
+
+/-! ### SimpleStringCollection -/
+
+/-- every element and the `empty_` member are well-formed strings -/
+def CollGood (col : Coll) : Prop :=
+  (∀ o ∈ col.items, HasStr o ∧ Sized o) ∧ HasStr col.empty ∧ Sized col.empty
+
+/-- the buffers a collection owns: one per element and one for `empty_` -/
+def collOwned (col : Coll) : List (Nat × Nat) := (col.empty.id, col.empty.size) :: ownedObjs col.items
+
+theorem dtorAllRev_total : ∀ (items : List Obj) (w : World), ∃ w', dtorAllRev items w = .ok ((), w')
+  | [], w => ⟨w, rfl⟩
+  | o :: rest, w => by
+    obtain ⟨w1, h1⟩ := dtorAllRev_total rest w
+    exact ⟨w1.free o.id o.size, by simp only [dtorAllRev, bind_run, h1, dtor_run]⟩
+
+theorem dtorAllRev_owns' : ∀ (items : List Obj) (w w' : World) (L : List (Nat × Nat)),
+    dtorAllRev items w = .ok ((), w') → Owns w (ownedObjs items ++ L) → Owns w' L
+  | [], w, w', L, h, ho => by
+    simp only [dtorAllRev, pure_run] at h
+    injection h with h; injection h with _ h2; subst h2
+    simpa [ownedObjs] using ho
+  | o :: rest, w, w', L, h, ho => by
+    simp only [dtorAllRev] at h
+    obtain ⟨u, w1, h1, h2⟩ := bind_ok_inv h
+    rw [dtor_run] at h2
+    injection h2 with h2; injection h2 with _ h3; subst h3
+    have ho' : Owns w (ownedObjs rest ++ ((o.id, o.size) :: L)) := by
+      refine ho.perm ?_
+      simp only [ownedObjs, List.map_cons, List.cons_append]
+      exact List.perm_middle.symm
+    exact (dtorAllRev_owns' rest w w1 _ h1 ho').free_head
+
+/-- `allocate(n)`: the old elements are destroyed, `size()` becomes `n`, every element is the
+    empty string; `empty_` is untouched -/
+theorem collAllocate_ok (col : Coll) (n : Nat) (w : World) :
+    ∃ items w', collAllocate col n w = .ok (⟨items, col.empty⟩, w') ∧ items.length = n ∧
+      (∀ o ∈ items, Holds o [] ∧ Sized o) ∧
+      ∀ L, Owns w (ownedObjs col.items ++ L) → Owns w' (ownedObjs items ++ L) := by
+  obtain ⟨w1, h1⟩ := dtorAllRev_total col.items w
+  obtain ⟨items, w2, h2, hl, hh, ho⟩ := ctorEmptyN_ok n w1
+  refine ⟨items, w2, by simp only [collAllocate, bind_run, h1, h2, pure_run], hl, hh, fun L hL => ?_⟩
+  exact ho L (dtorAllRev_owns' _ _ _ _ h1 hL)
+
+/-- `col[i]` inside the range is the element, nothing else happens -/
+theorem collGet_in_range {col : Coll} {i : Nat} {o : Obj} (h : col.items[i]? = some o) (w : World) :
+    collGet col i w = .ok ((col, o), w) := by
+  simp only [collGet, h, pure_run]
+
+/-- `col[i]` past the end: `empty_` is reset to `""` and returned — so it reads as the empty
+    string whatever was stored through an out-of-range index before -/
+theorem collGet_out_of_range {col : Coll} {i : Nat} (h : col.items[i]? = none) (w : World) :
+    collGet col i w =
+      .ok ((⟨col.items, mkObj (w.next + 1) []⟩, mkObj (w.next + 1) []),
+           (((w.alloc 1).free col.empty.id col.empty.size).alloc 1).free w.next 1) := by
+  simp only [collGet, h, bind_run, ctorEmpty_ok, assign_ok _ (holds_mkObj nulFree_nil), dtor_run, pure_run]
+  simp
+
+/-- `col[i] = v` inside the range replaces that element's buffer -/
+theorem collAssign_in_range {col : Coll} {i : Nat} {o value : Obj} {v : Bytes} (h : col.items[i]? = some o)
+    (hv : Holds value v) (w : World) :
+    collAssign col i value w =
+      .ok (⟨col.items.set i (mkObj w.next v), col.empty⟩, (w.free o.id o.size).alloc (v.length + 1)) := by
+  simp only [collAssign, h, bind_run, assign_ok o hv, pure_run]
+
+/-- `col[i] = v` past the end lands in `empty_` (and is forgotten by the next out-of-range access) -/
+theorem collAssign_out_of_range {col : Coll} {i : Nat} {value : Obj} {v : Bytes} (h : col.items[i]? = none)
+    (hv : Holds value v) (w : World) :
+    collAssign col i value w =
+      .ok (⟨col.items, mkObj (w.next + 2) v⟩,
+           (((((w.alloc 1).free col.empty.id col.empty.size).alloc 1).free w.next 1).free (w.next + 1) 1).alloc
+             (v.length + 1)) := by
+  simp only [collAssign, h, bind_run, ctorEmpty_ok, assign_ok _ (holds_mkObj nulFree_nil), dtor_run,
+    assign_ok _ hv, pure_run]
+  simp
+
+theorem ownedObjs_split {items : List Obj} {i : Nat} {o : Obj} (h : items[i]? = some o) (o' : Obj) :
+    (ownedObjs items).Perm ((o.id, o.size) :: ownedObjs (items.take i ++ items.drop (i + 1))) ∧
+    (ownedObjs (items.set i o')).Perm ((o'.id, o'.size) :: ownedObjs (items.take i ++ items.drop (i + 1))) := by
+  have hi : i < items.length := by
+    rcases Nat.lt_or_ge i items.length with h' | h'
+    · exact h'
+    · rw [List.getElem?_eq_none h'] at h; cases h
+  have e1 : items = items.take i ++ o :: items.drop (i + 1) := by
+    conv => lhs; rw [← List.take_append_drop i items, List.drop_eq_getElem_cons hi]
+    rw [List.getElem?_eq_getElem hi] at h
+    rw [Option.some.inj h]
+  have e2 : items.set i o' = items.take i ++ o' :: items.drop (i + 1) := by
+    rw [List.set_eq_take_append_cons_drop, if_pos hi]
+  constructor
+  · conv => lhs; rw [e1]
+    simp only [ownedObjs, List.map_append, List.map_cons]
+    exact List.perm_middle
+  · rw [e2]
+    simp only [ownedObjs, List.map_append, List.map_cons]
+    exact List.perm_middle
+
+theorem collGood_set {col : Coll} (hc : CollGood col) (i : Nat) {o' : Obj} (h : HasStr o' ∧ Sized o') :
+    CollGood ⟨col.items.set i o', col.empty⟩ := by
+  refine ⟨fun o ho => ?_, hc.2⟩
+  rcases List.mem_or_eq_of_mem_set ho with h1 | h1
+  · exact hc.1 o h1
+  · subst h1; exact h
+
+/-- the actions of a `coll` operation keep the collection well-formed and its buffers paired -/
+theorem runColl_pc {st : Store} {w0 : World} (hg : Good st w0) : ∀ (acts : List CollAct) (col : Coll) (w : World)
+    (col' : Coll) (w' : World), CollGood col → runColl st acts col w = .ok (col', w') →
+    CollGood col' ∧ ∀ L, Owns w (collOwned col ++ L) → Owns w' (collOwned col' ++ L)
+  | [], col, w, col', w', hc, h => by
+    simp only [runColl, pure_run] at h
+    injection h with h; injection h with h1 h2; subst h1 h2
+    exact ⟨hc, fun L hL => hL⟩
+  | .alloc n :: rest, col, w, col', w', hc, h => by
+    simp only [runColl] at h
+    obtain ⟨c1, w1, h1, h2⟩ := bind_ok_inv h
+    obtain ⟨items, w1', ha, _, hh, ho⟩ := collAllocate_ok col n w
+    rw [ha] at h1
+    injection h1 with h1; injection h1 with e1 e2; subst e1 e2
+    have hc1 : CollGood ⟨items, col.empty⟩ := ⟨fun o ho' => ⟨⟨_, (hh o ho').1⟩, (hh o ho').2⟩, hc.2⟩
+    obtain ⟨hc2, ho2⟩ := runColl_pc hg rest _ _ _ _ hc1 h2
+    refine ⟨hc2, fun L hL => ho2 L ?_⟩
+    have g := ho ((col.empty.id, col.empty.size) :: L) (hL.perm (by
+      simp only [collOwned, List.cons_append]; exact List.perm_middle.symm))
+    exact g.perm (by simp only [collOwned, List.cons_append]; exact List.perm_middle)
+  | .set i a :: rest, col, w, col', w', hc, h => by
+    simp only [runColl] at h
+    cases hx : st.get? a with
+    | none => simp [hx] at h
+    | some x =>
+      simp only [hx] at h
+      obtain ⟨v, hv⟩ := hg.holds_of_get hx
+      obtain ⟨c1, w1, h1, h2⟩ := bind_ok_inv h
+      cases hi : col.items[i]? with
+      | some o =>
+        rw [collAssign_in_range hi hv] at h1
+        injection h1 with h1; injection h1 with e1 e2; subst e1 e2
+        have hc1 := collGood_set hc i (o' := mkObj w.next v) ⟨hasStr_mk _ hv.nulFree, sized_mkObj _ _⟩
+        obtain ⟨hc2, ho2⟩ := runColl_pc hg rest _ _ _ _ hc1 h2
+        refine ⟨hc2, fun L hL => ho2 L ?_⟩
+        obtain ⟨p1, p2⟩ := ownedObjs_split hi (mkObj w.next v)
+        have g1 : Owns w ((o.id, o.size) :: (col.empty.id, col.empty.size) ::
+            (ownedObjs (col.items.take i ++ col.items.drop (i + 1)) ++ L)) := by
+          refine hL.perm ?_
+          simp only [collOwned, List.cons_append]
+          exact ((List.Perm.cons _ (p1.append_right L)).trans (List.Perm.swap _ _ _))
+        have g2 := (g1.free_head).alloc (v.length + 1)
+        refine g2.perm ?_
+        simp only [collOwned, List.cons_append, mkObj_id, mkObj_size, free_next]
+        exact ((List.Perm.swap _ _ _).trans (List.Perm.cons _ (p2.append_right L).symm))
+      | none =>
+        rw [collAssign_out_of_range hi hv] at h1
+        injection h1 with h1; injection h1 with e1 e2; subst e1 e2
+        have hc1 : CollGood ⟨col.items, mkObj (w.next + 2) v⟩ := ⟨hc.1, hasStr_mk _ hv.nulFree, sized_mkObj _ _⟩
+        obtain ⟨hc2, ho2⟩ := runColl_pc hg rest _ _ _ _ hc1 h2
+        refine ⟨hc2, fun L hL => ho2 L ?_⟩
+        have g1 : Owns w ((col.empty.id, col.empty.size) :: (ownedObjs col.items ++ L)) := by
+          simpa [collOwned] using hL
+        have g2 := ((g1.alloc 1).free_2nd).alloc 1
+        have g3 := ((g2.free_2nd).free_head).alloc (v.length + 1)
+        simpa [collOwned] using g3
+  | .get i :: rest, col, w, col', w', hc, h => by
+    simp only [runColl] at h
+    obtain ⟨r, w1, h1, h2⟩ := bind_ok_inv h
+    simp only [bind_run, out_run] at h2
+    cases hi : col.items[i]? with
+    | some o =>
+      rw [collGet_in_range hi] at h1
+      injection h1 with h1; injection h1 with e1 e2; subst e1 e2
+      obtain ⟨hc2, ho2⟩ := runColl_pc hg rest _ _ _ _ hc h2
+      exact ⟨hc2, fun L hL => ho2 L (hL.emit_out _)⟩
+    | none =>
+      rw [collGet_out_of_range hi] at h1
+      injection h1 with h1; injection h1 with e1 e2; subst e1 e2
+      have hc1 : CollGood ⟨col.items, mkObj (w.next + 1) []⟩ := ⟨hc.1, hasStr_mk _ nulFree_nil, sized_mkObj _ _⟩
+      obtain ⟨hc2, ho2⟩ := runColl_pc hg rest _ _ _ _ hc1 h2
+      refine ⟨hc2, fun L hL => ho2 L ?_⟩
+      have g1 : Owns w ((col.empty.id, col.empty.size) :: (ownedObjs col.items ++ L)) := by
+        simpa [collOwned] using hL
+      have g2 := (((g1.alloc 1).free_2nd).alloc 1).free_2nd
+      have g3 := g2.emit_out ("cval " ++ Proto.hex (cview (mkObj (w.next + 1) []).buf))
+      simpa [collOwned] using g3
+  | .size :: rest, col, w, col', w', hc, h => by
+    simp only [runColl, bind_run, out_run] at h
+    obtain ⟨hc2, ho2⟩ := runColl_pc hg rest _ _ _ _ hc h
+    exact ⟨hc2, fun L hL => ho2 L (hL.emit_out _)⟩
+
+/-- the whole `coll` operation leaves the store alone and nothing outstanding -/
+theorem coll_op_ql {st : Store} {w0 : World} (hg : Good st w0) (acts : List CollAct) :
+    QueryLike (do let col ← collCtor; let col ← runColl st acts col; collDtor col; pure st : M Store) st := by
+  intro w s w' h
+  simp only [collCtor] at h
+  obtain ⟨c0, w1, h1, h2⟩ := bind_ok_inv h
+  simp only [bind_run, ctorEmpty_ok, pure_run] at h1
+  injection h1 with h1; injection h1 with e1 e2; subst e1 e2
+  obtain ⟨c1, w2, h3, h4⟩ := bind_ok_inv h2
+  have hc0 : CollGood ⟨[], mkObj w.next []⟩ := ⟨by simp, hasStr_mk _ nulFree_nil, sized_mkObj _ _⟩
+  obtain ⟨hc1, ho1⟩ := runColl_pc hg acts _ _ _ _ hc0 h3
+  obtain ⟨u0, w3', h4a, h4b⟩ := bind_ok_inv h4
+  simp only [pure_run] at h4b
+  injection h4b with h4b; injection h4b with e1 e2; subst e1 e2
+  refine ⟨rfl, fun L hL => ?_⟩
+  have g1 := ho1 L (by simpa [collOwned, ownedObjs] using hL.alloc 1)
+  simp only [collDtor] at h4a
+  obtain ⟨u1, w3, h5, h6⟩ := bind_ok_inv h4a
+  rw [dtor_run] at h6
+  injection h6 with h6; injection h6 with _ e2; subst e2
+  have g2 : Owns w2 (ownedObjs c1.items ++ ((c1.empty.id, c1.empty.size) :: L)) := by
+    refine g1.perm ?_
+    simp only [collOwned, List.cons_append]; exact List.perm_middle.symm
+  exact (dtorAllRev_owns' _ _ _ _ h5 g2).free_head
+
+/-- **one operation keeps the invariant** — EVERY operation of the scripts, formatted construction
+    included, whatever `vsnprintf` answered: if the operation succeeds in a good state (and the
+    result stays within `size_t`), the state after it is good again: every object holds a string,
+    recorded sizes are buffer sizes, and the allocator's outstanding buffers are exactly the live
+    objects' buffers — every temporary was released once, with its requested size. -/
+theorem step_good {st st' : Store} {w w' : World} {op : Op} (hg : Good st w)
     (hs : step st op w = .ok (st', w')) (hfit : Fits st') : Good st' w' := by
   cases op with
   | junk b =>
     simp only [step] at hs
     injection hs with hs; injection hs with h1 h2; subst h1 h2
     exact hg.silent (fun L hL => by obtain ⟨L0, a, b, c⟩ := hL; exact ⟨L0, a, b, c⟩)
-  | new l h =>
-    obtain ⟨a, ha⟩ := hwf
-    exact create_of_creates hg (ctorCStr_creates ha w) hs hfit
+  | new l h => exact create_of_pc hg (pc_ctorCStr h 0) hs hfit
   | newnull l => exact create_of_creates hg (ctorNull_creates w) hs hfit
-  | rep l h k =>
-    obtain ⟨a, ha⟩ := hwf
-    exact create_of_creates hg (ctorRepeat_creates ha k w) hs hfit
+  | rep l h k => exact create_of_pc hg (pc_ctorRepeat h 0 k) hs hfit
   | copy l a =>
     simp only [step] at hs
     cases hx : st.get? a with
@@ -556,17 +825,16 @@ theorem step_good {st st' : Store} {w w' : World} {op : Op} (hg : Good st w) (hw
         injection hs with hs; injection hs with h1 h2; subst h1 h2
         exact (put_good hg hx ⟨_, hh⟩ hsz ho hfit).silent (fun L hL => hL.emit_out _)
   | pluseqc l h =>
-    obtain ⟨t, ht⟩ := hwf
     simp only [step] at hs
     cases hx : st.get? l with
     | none => simp [hx, bad] at hs
     | some x =>
       simp only [hx] at hs
-      obtain ⟨s, hxs⟩ := hg.holds_of_get hx
-      obtain ⟨r, w1, hr, hh, hsz, ho⟩ := appendC_replaces hxs ht w
-      simp only [bind_run, hr, outVal_run, pure_run] at hs
-      injection hs with hs; injection hs with h1 h2; subst h1 h2
-      exact (put_good hg hx ⟨_, hh⟩ hsz ho hfit).silent (fun L hL => hL.emit_out _)
+      obtain ⟨r, w1, hr, hs2⟩ := bind_ok_inv hs
+      obtain ⟨hh, hsz, ho⟩ := appendC_pc (hg.holds_of_get hx) _ _ _ _ _ hr
+      simp only [bind_run, outVal_run, pure_run] at hs2
+      injection hs2 with hs2; injection hs2 with h1 h2; subst h1 h2
+      exact (put_good hg hx hh hsz ho hfit).silent (fun L hL => hL.emit_out _)
   | del l =>
     simp only [step] at hs
     cases hx : st.get? l with
@@ -681,16 +949,13 @@ theorem step_good {st st' : Store} {w w' : World} {op : Op} (hg : Good st w) (hw
     | none => simp [hx, bad] at hs
     | some x =>
       simp only [hx] at hs
-      obtain ⟨s, hxs⟩ := hg.holds_of_get hx
-      obtain ⟨vs, rest, hv1, hv2⟩ := henv x s hx hxs
-      obtain ⟨r, w1, hr, hh, hsz, _, ho⟩ := printable_creates hxs w vs rest hv1 hv2
-      exact create_of_creates hg ⟨r, w1, hr, hh, hsz, ho⟩ hs hfit
+      exact create_of_pc hg (pc_printable x) hs hfit
   | split a d =>
     refine query2_good hg (fun x y hx hy => ?_) hs
     obtain ⟨s, hxs⟩ := hg.holds_of_get hx
     obtain ⟨t, hyt⟩ := hg.holds_of_get hy
     exact split_op_silent hxs hyt
-  | fmt l f => exact absurd hwf (by simp [Op.wf])
+  | fmt l f => exact create_of_pc hg (pc_runFmt hg f) hs hfit
   | replc a c1 c2 =>
     simp only [step] at hs
     cases hx : st.get? a with
@@ -698,7 +963,7 @@ theorem step_good {st st' : Store} {w w' : World} {op : Op} (hg : Good st w) (hw
     | some x =>
       simp only [hx] at hs
       obtain ⟨s, hxs⟩ := hg.holds_of_get hx
-      obtain ⟨r, hr, hh, hid, hsz, hlen⟩ := replaceChar_holds hxs c1 c2 hwf
+      obtain ⟨r, hr, hh, hid, hsz, hlen⟩ := replaceChar_any hxs c1 c2
       simp only [bind_run, hr, liftE_ok, outVal_run, pure_run] at hs
       injection hs with hs; injection hs with h1 h2; subst h1 h2
       have hsx := hg.sized_of_get hx
@@ -706,17 +971,16 @@ theorem step_good {st st' : Store} {w w' : World} {op : Op} (hg : Good st w) (hw
         (fun L hL => hL.emit_out _)
       rw [hid, hsz]; exact hL
   | repl a h1 h2 =>
-    obtain ⟨⟨pat, hpat⟩, ⟨rep, hrep⟩⟩ := hwf
     simp only [step] at hs
     cases hx : st.get? a with
     | none => simp [hx, bad] at hs
     | some x =>
       simp only [hx] at hs
-      obtain ⟨s, hxs⟩ := hg.holds_of_get hx
-      obtain ⟨r, w1, hr, hh, hsz, ho⟩ := replaceStr_replaces hxs (hg.sized_of_get hx) hpat hrep w
-      simp only [bind_run, hr, outVal_run, pure_run] at hs
-      injection hs with hs; injection hs with h1 h2; subst h1 h2
-      exact (put_good hg hx ⟨_, hh⟩ hsz ho hfit).silent (fun L hL => hL.emit_out _)
+      obtain ⟨r, w1, hr, hs2⟩ := bind_ok_inv hs
+      obtain ⟨hh, hsz, ho⟩ := replaceStr_pc (hg.holds_of_get hx) (hg.sized_of_get hx) _ _ _ _ _ _ _ hr
+      simp only [bind_run, outVal_run, pure_run] at hs2
+      injection hs2 with hs2; injection hs2 with h1 h2; subst h1 h2
+      exact (put_good hg hx hh hsz ho hfit).silent (fun L hL => hL.emit_out _)
   | pad a b c =>
     simp only [step] at hs
     cases hx : st.get? a with
@@ -777,18 +1041,56 @@ theorem step_good {st st' : Store} {w w' : World} {op : Op} (hg : Good st w) (hw
   | atoi h => exact ql_good hg (ql_bind (silent_liftE _) fun r => ql_bind (silent_outInt _) fun _ => ql_pure st) hs
   | atou h => exact ql_good hg (ql_bind (silent_liftE _) fun r => ql_bind (silent_outNat _) fun _ => ql_pure st) hs
   | tolower c => exact ql_good hg (ql_bind (silent_out _) fun _ => ql_pure st) hs
+  | coll acts =>
+    simp only [step] at hs
+    exact ql_good hg (coll_op_ql hg acts) hs
+  | selfassignc l =>
+    simp only [step] at hs
+    cases hx : st.get? l with
+    | none => simp [hx, bad] at hs
+    | some x =>
+      simp only [hx] at hs
+      obtain ⟨v, hv⟩ := hg.holds_of_get hx
+      simp only [bind_run, ctorCStr_ok hv, assign_ok x (holds_mkObj hv.nulFree), dtor_run, outVal_run, pure_run] at hs
+      injection hs with hs; injection hs with h1 h2; subst h1 h2
+      refine (put_good hg hx (hasStr_mk _ hv.nulFree) (sized_mkObj _ _) (fun L hL => ?_) hfit).silent
+        (fun L hL => hL.emit_out _)
+      have g := (((hL.alloc (v.length + 1)).free_2nd).alloc (v.length + 1)).free_2nd
+      simpa using g
+  | selfrepl l h =>
+    simp only [step] at hs
+    cases hx : st.get? l with
+    | none => simp [hx, bad] at hs
+    | some x =>
+      simp only [hx] at hs
+      obtain ⟨r, w1, hr, hs2⟩ := bind_ok_inv hs
+      obtain ⟨hh, hsz, ho⟩ := replaceStr_pc (hg.holds_of_get hx) (hg.sized_of_get hx) _ _ _ _ _ _ _ hr
+      simp only [bind_run, outVal_run, pure_run] at hs2
+      injection hs2 with hs2; injection hs2 with h1 h2; subst h1 h2
+      exact (put_good hg hx hh hsz ho hfit).silent (fun L hL => hL.emit_out _)
+  | selfreplw l h =>
+    simp only [step] at hs
+    cases hx : st.get? l with
+    | none => simp [hx, bad] at hs
+    | some x =>
+      simp only [hx] at hs
+      obtain ⟨r, w1, hr, hs2⟩ := bind_ok_inv hs
+      obtain ⟨hh, hsz, ho⟩ := replaceStr_pc (hg.holds_of_get hx) (hg.sized_of_get hx) _ _ _ _ _ _ _ hr
+      simp only [bind_run, outVal_run, pure_run] at hs2
+      injection hs2 with hs2; injection hs2 with h1 h2; subst h1 h2
+      exact (put_good hg hx hh hsz ho hfit).silent (fun L hL => hL.emit_out _)
   | skip => exact ql_good hg (ql_pure st) hs
 
 
 /-! ### whole histories -/
 
-/-- a successful execution of a script of object-level operations, every intermediate store
-    within `size_t` -/
+/-- a successful execution of a script (any operations, any `vsnprintf` answers), every
+    intermediate store within `size_t` -/
 inductive Run : Store → World → List Op → Store → World → Prop
   | nil (st : Store) (w : World) : Run st w [] st w
   | cons {st : Store} {w : World} {op : Op} {ops : List Op} {st1 : Store} {w1 : World} {st2 : Store} {w2 : World}
       (vs : List VsnRes) :                      -- what `vsnprintf` will answer during this operation
-      op.wf → EnvOk st { w with vsn := vs } op → step st op { w with vsn := vs } = .ok (st1, w1) → Fits st1 →
+      step st op { w with vsn := vs } = .ok (st1, w1) → Fits st1 →
       Run st1 w1 ops st2 w2 → Run st w (op :: ops) st2 w2
 
 theorem Good.setVsn {st : Store} {w : World} (hg : Good st w) (vs : List VsnRes) : Good st { w with vsn := vs } :=
@@ -798,12 +1100,12 @@ theorem run_good {st st' : Store} {w w' : World} {ops : List Op} (hr : Run st w 
     Good st' w' := by
   induction hr with
   | nil => exact hg
-  | cons vs hwf henv hs hfit _ ih => exact ih (step_good (hg.setVsn vs) hwf henv hs hfit)
+  | cons vs hs hfit _ ih => exact ih (step_good (hg.setVsn vs) hs hfit)
 
 theorem run_append {st st1 st2 : Store} {w w1 w2 : World} {ops1 ops2 : List Op}
     (h1 : Run st w ops1 st1 w1) (h2 : Run st1 w1 ops2 st2 w2) : Run st w (ops1 ++ ops2) st2 w2 := by
   induction h1 with
   | nil => exact h2
-  | cons vs hwf henv hs hfit _ ih => exact Run.cons vs hwf henv hs hfit (ih h2)
+  | cons vs hs hfit _ ih => exact Run.cons vs hs hfit (ih h2)
 
 end SStr
